@@ -380,3 +380,68 @@ Definition goaway_run_first_only (open : list nat) (lasts : list nat) : list nat
 Definition goaway_case_ok (open lasts : list nat) (on_first elsewhere : nat) : bool :=
   let '(kept, resent) := goaway_run open lasts in
   Nat.eqb (length kept) on_first && Nat.eqb (length resent) elsewhere.
+
+(* ---------------------------------------------------------------------------------------- *)
+(* 8. (round 8) persistConn.wroteRequest of /repo/transport.go: what the read loop learns     *)
+(*    about the request side when the response has ended.  The write loop either has reported *)
+(*    (nil or an error), or - after maxWriteWaitBeforeConnReuse - has not: it is still inside *)
+(*    the request body, and the connection must not be reused.                                *)
+
+Inductive write_report := WNotYet | WDone | WFailed.
+
+Definition wrote_request (w : write_report) : bool :=
+  match w with WDone => true | WFailed => false | WNotYet => false end.
+
+(* the seeded variant: "a slow writer alone is no reason to throw the connection away" *)
+Definition wrote_request_lenient (w : write_report) : bool :=
+  match w with WDone => true | WFailed => false | WNotYet => true end.
+
+(* harness case: the response was answered and consumed while the request body was still being
+   produced; was the connection handed to a further request? *)
+Definition pipe_case_ok (w : write_report) (reused : bool) : bool :=
+  Bool.eqb reused (recycle_ok (mkRecycle true true true false (wrote_request w))).
+
+(* ---------------------------------------------------------------------------------------- *)
+(* 9. (round 8) The connection-level receive window of an HTTP/2 connection                  *)
+(*    (/repo/internal/http2/transport.go processData, transportResponseBody.Read / Close):    *)
+(*    DATA takes from it; bytes handed to the caller give it back, and so do the bytes still  *)
+(*    buffered when a body is closed early.                                                   *)
+
+Inductive fevent :=
+| FData (s n : nat)     (* n bytes of DATA arrive for stream s and are buffered *)
+| FRead (s n : nat)     (* the caller reads (at most) n buffered bytes of stream s *)
+| FClose (s : nat).     (* the caller closes the body of stream s: what is buffered is dropped *)
+
+Record fstate := mkFS { f_window : nat; f_buffered : nat -> nat }.
+
+Definition f_step (s : fstate) (e : fevent) : fstate :=
+  match e with
+  | FData i n => mkFS (f_window s - n) (upd (f_buffered s) i (f_buffered s i + n))
+  | FRead i n => let m := Nat.min n (f_buffered s i) in
+                 mkFS (f_window s + m) (upd (f_buffered s) i (f_buffered s i - m))
+  | FClose i => mkFS (f_window s + f_buffered s i) (upd (f_buffered s) i 0)
+  end.
+
+(* the seeded variant: Close gives nothing back *)
+Definition f_step_noreturn (s : fstate) (e : fevent) : fstate :=
+  match e with
+  | FClose i => mkFS (f_window s) (upd (f_buffered s) i 0)
+  | _ => f_step s e
+  end.
+
+Definition f_run (step : fstate -> fevent -> fstate) (w : nat) (evs : list fevent) : fstate :=
+  fold_left step evs (mkFS w (fun _ => 0)).
+
+(* the peer respects the window: DATA never exceeds what is left *)
+Fixpoint f_respects (s : fstate) (evs : list fevent) : bool :=
+  match evs with
+  | [] => true
+  | e :: r => (match e with FData _ n => n <=? f_window s | _ => true end) && f_respects (f_step s e) r
+  end.
+
+(* harness case: streams abandoned with [unread] bytes buffered each, on a connection whose
+   window is w; afterwards a response of [next] bytes must still get through *)
+Definition flow_case_ok (w : nat) (unread : list nat) (next : nat) (delivered : bool) : bool :=
+  let evs := flat_map (fun i_n => [FData (fst i_n) (snd i_n); FClose (fst i_n)]) (combine (seq 0 (length unread)) unread) in
+  let s := f_run f_step w evs in
+  Bool.eqb delivered (next <=? f_window s).
